@@ -8,6 +8,10 @@
         final(clk).now >= old(clk).now,
 //@ closure 1
 || -> (r: FmtArgs)
+//@ exit
+        // C37: the mutex taken from `running` is held until the function returns: `_lock` is the guard
+        // of `mutex` and still a live binding of the outermost block after the last critical section
+        proof { assert(_lock.mutex_spec() == &*mutex); }
 //@ global
 // The two locks belong to this run; the rsync command knows its collector's filter setting.
 spec fn wf(run: &Run) -> bool {
